@@ -84,7 +84,7 @@ func raceRunJ(jf *os.File, seed uint64, start, n, step int64, repo string, stop 
 						guardRun(func() error { _, err := gonnx.NewModelFromBytes(call.LoadBytes); return err })
 					case KIntrospect:
 						guardRun(func() error { introspect(models[call.Model]); return nil })
-					case KRun, KBad, KOpFault, KFeedback:
+					case KRun, KBad, KOpFault, KFeedback, KRefill:
 						in := gonnx.Tensors{}
 						for k, v := range call.Inputs {
 							in[k] = v.Tensor()
